@@ -1,31 +1,7 @@
-"""Per-property manifest metadata (what MANIFEST.json says about each registered check).
+"""Manifest metadata lives in checks/<id>.meta.json (category, text, note, technique, design_ref).
 
-A property is registered as soon as REG has an entry and checks/<id>.py exists;
-everything else is listed under not_applicable with the reason given in NOT_YET.
+NOT_APPLICABLE: properties deliberately not claimed, with the reason (see DESIGN.md section 6).
+NOT_YET: reason recorded for properties whose check is not registered yet.
 """
-
-REG = {
-    "C19": dict(
-        category="exploration",
-        text="Exhaustive enumeration of every digraph on <=4 nodes incl. self-loops (quick) plus every loop-free digraph on 5 nodes (thorough), "
-             "and Hypothesis-generated graphs of up to 40 nodes, each judged against a reachability-closure reference: permutation, every edge respected, "
-             "antichain subsets, error iff cycle among the items, cycle set exact, order independent of item hashes. Generated-input search is the right level: "
-             "the function is pure and the small-graph space is finite, so the quick tier is complete for n<=4.",
-        note="Trusted: the reachability reference in checks/c19.py; CPython set iteration for the hash-perturbation half. Graphs above 5 nodes are sampled, not enumerated.",
-        technique="exhaustive enumeration + Hypothesis generation against a reachability reference model",
-        design_ref="DESIGN.md 4/C19",
-    ),
-    "C54": dict(
-        category="exploration",
-        text="Operation programs (<=30 ops, every argument kind) over OrderedSet, IdentitySet, immutabledict and LRUCache applied to the real object and to a "
-             "plain-Python reference model after every step; exhaustive OrderedSet binary-op grid over {1,2,3} x argument lists <=3. Two confirmed defects are "
-             "excluded by construction and replayed as pinned known findings.",
-        note="Trusted: the reference models in checks/c54.py. Pure-Python build of the *_cy modules from the working tree (the prebuilt extension is exercised via VERIF_BUILD=compiled / C55).",
-        technique="model-based program generation (Hypothesis) + exhaustive small grid, reference dict/set/list models",
-        design_ref="DESIGN.md 4/C54",
-    ),
-}
-
-# reason recorded under MANIFEST.not_applicable for properties without a registered check yet
-NOT_YET = "check not built yet in this session (planned in DESIGN.md section 4; generated-input search applies)"
 NOT_APPLICABLE = {}
+NOT_YET = "check not built yet in this session (planned in DESIGN.md section 4; generated-input search applies)"
